@@ -16,7 +16,7 @@ open scoped BigOperators
 
 /-! ### A. soundness of `safeNonneg`, semantics of `swapXY` -/
 
-theorem litR_nonneg {m e : Int} (h : 0 ≤ m) : 0 ≤ litR m e :=
+private theorem litR_nonneg {m e : Int} (h : 0 ≤ m) : 0 ≤ litR m e :=
   mul_nonneg (Int.cast_nonneg h) (zpow_nonneg (by norm_num) e)
 
 theorem V.safeNonneg_sound {n : Nat} (pos : Bool) (u v : Fin n → ℝ)
